@@ -9,7 +9,7 @@
    the model. *)
 From Coq Require Import Reals List Bool.
 From Coquelicot Require Import Coquelicot.
-From GS Require Import Num Loops C18_Model C18_RInst C18_Analysis C18_Proofs C18_Pipeline C18_Loglik C18_DerivNear C18_Examples.
+From GS Require Import Num Loops C18_Model C18_RInst C18_Analysis C18_Proofs C18_Pipeline C18_Loglik C18_DerivNear C18_Examples C18_FitBook.
 Open Scope R_scope.
 
 (* on the normalize range, normalize returns a number, that number lies in the coded denormalize range, and
@@ -164,3 +164,30 @@ Theorem C18_hypotheses_satisfiable :
   (forall p : npar R, (0 :: 1 :: nil) <> nil /\ 0 < nvar Rops (map (normalize_raw Rops KIdentity p) (0 :: 1 :: nil))).
 Proof. exact (conj ranges_inhabited (conj branches_inhabited variance_positive)). Qed.
 Print Assumptions C18_hypotheses_satisfiable.
+
+(* Normalizer.fit bookkeeping, for every number type and ANY behaviour of the optimiser (any sequence of trial
+   points written into the free parameters by the objective, any final point): parameters are held in sorted-name
+   order, [skipm] marks the skipped ones.  Skipped parameters keep their values ... *)
+Theorem C18_fit_skipped_untouched :
+  forall (T : Type) (skipm : list bool) (trials : list (list T)) (xfinal st : list T) (d : T) (i : nat),
+    nth i skipm false = true -> nth i (fst (fit_book skipm trials xfinal st)) d = nth i st d.
+Proof. exact @fit_skipped_untouched. Qed.
+Print Assumptions C18_fit_skipped_untouched.
+
+(* ... the free parameters, in name order, hold exactly the optimiser's final point ... *)
+Theorem C18_fit_free_hold_optimum :
+  forall (T : Type) (skipm : list bool) (trials : list (list T)) (xfinal st : list T),
+    length skipm = length st -> length xfinal = length (filter negb skipm) -> length (filter negb skipm) <> 0%nat ->
+    gather skipm (fst (fit_book skipm trials xfinal st)) = xfinal.
+Proof. exact @fit_free_hold_optimum. Qed.
+Print Assumptions C18_fit_free_hold_optimum.
+
+(* ... and the returned dict is the object state ({} and an untouched object when nothing is free) *)
+Theorem C18_fit_dict_is_state :
+  forall (T : Type) (skipm : list bool) (trials : list (list T)) (xfinal st : list T),
+    (length (filter negb skipm) = 0%nat -> fit_book skipm trials xfinal st = (st, None)) /\
+    (length (filter negb skipm) <> 0%nat ->
+       snd (fit_book skipm trials xfinal st) = Some (fst (fit_book skipm trials xfinal st))) /\
+    length (fst (fit_book skipm trials xfinal st)) = length st.
+Proof. exact @fit_dict_is_state. Qed.
+Print Assumptions C18_fit_dict_is_state.
